@@ -394,6 +394,24 @@ flow main
 """,
         [["ev", 0, None], ["ev", 1, None], ["ev", 2, None], ["age"], ["finished", 0], ["started", 0]],
     ),
+    # a start group that reaches ONE action through two or-branches sharing one reference (`start A and (m1 or m2)` normalises to
+    # (A and m1) or (A and m2) with the same generated action reference in both branches): C09-F43
+    "start-group-twin": (
+        """flow m1
+  match Ev1()
+
+flow m2
+  match Ev2()
+
+flow main
+  match Ev0()
+  start UtteranceBotAction(script="x") and (m1 or m2)
+  match Ev0()
+  start (UtteranceBotAction(script="y") as $r and m1) or (UtteranceBotAction(script="y") as $r and m2)
+  match Never()
+""",
+        [["ev", 0, None], ["ev", 1, None], ["ev", 2, None], ["finished", 0], ["started", 0]],
+    ),
     # a state round trip while a flow waits inside an open fork (or-group / when), then the group completes
     "fork-roundtrip": (
         """flow f1
